@@ -312,7 +312,8 @@ def applyOverlay (base : Config) (ov : Overlay) : Config :=
     instantiateCustomExc := upd ov.instantiateCustomExc base.instantiateCustomExc
     instantiateOldstyleExc := upd ov.instantiateOldstyleExc base.instantiateOldstyleExc }
 
-/-- what `SlaveService.on_connect` passes to `conn._config.update(...)` (generated by observing it) -/
+/-- the classic-mode overrides: what a connection established through `SlaveService._connect` has whatever the caller
+asked for (generated by observing established connections; in the pinned code `on_connect` applies them) -/
 def slaveOverlay : Overlay :=
   { allowSafe := Gen.Policy.slaveSetAllowSafeAttrs
     allowExposed := Gen.Policy.slaveSetAllowExposedAttrs
@@ -328,7 +329,7 @@ def slaveOverlay : Overlay :=
     instantiateCustomExc := Gen.Policy.slaveSetInstantiateCustomExceptions
     instantiateOldstyleExc := Gen.Policy.slaveSetInstantiateOldstyleExceptions }
 
-/-- `SlaveService.on_connect(conn)`: updates THAT connection's dict -/
+/-- classic mode applied to a connection's own configuration (`SlaveService.on_connect(conn)` in the pinned code) -/
 def onConnectSlave (c : Config) : Config := applyOverlay c slaveOverlay
 
 /-- life of one connection slot -/
@@ -366,7 +367,7 @@ def World.init : World := { dflt := defaultConfig, dicts := fun _ => {}, conns :
 inductive Event where
   | open (i : Nat) (ov : Overlay)      -- `Connection(root, channel, config)` with a literal dict
   | openWith (i : Nat) (d : Nat)       -- `Connection(root, channel, D)` with the application's dict OBJECT `D = dicts d`
-  | slave (i : Nat)                    -- `SlaveService.on_connect(conn_i)`
+  | slave (i : Nat)                    -- connection i is the classic-mode one: its own copy gets the classic overrides
   | close (i : Nat)                    -- `conn_i.close()`
   | access (i : Nat)                   -- conn i serves any attribute request (decisions read, never write, the config)
   | editDict (d : Nat) (ov : Overlay)  -- the application edits its dict object `d` (`D.update(ov)`), e.g. after opening with it
